@@ -150,7 +150,8 @@ def make_section(spec):
 def gen_analyze(rng):
     chord = rng.choice([0.3, 1.0, 1.0, 25.0, 100.0])
     spec = {"chord": chord, "camber": rng.choice([0.0, 0.02, 0.05, 0.08]), "tmax": rng.choice([0.04, 0.08, 0.12, 0.2]), "xt": rng.choice([0.25, 0.3, 0.4, 0.5, 0.6]),
-            "r_end": rng.choice([0.005, 0.01, 0.03]), "n": rng.choice([150, 300, 600]), "ccw": rng.random() < 0.5, "roll": rng.randrange(600),
+            # the end radius varies continuously: where the station march stops short of an edge (its phase) follows from it
+            "r_end": rng.choice([0.005, 0.01, 0.03]) * rng.uniform(0.8, 1.25), "n": rng.choice([150, 300, 600]), "ccw": rng.random() < 0.5, "roll": rng.randrange(600),
             "pose": [rng.choice([0.0, rng.uniform(-3, 3)]), rng.choice([0.0, rng.uniform(-5, 5) * chord]), rng.choice([0.0, rng.uniform(-5, 5) * chord])]}
     if spec["r_end"] * 2 >= spec["tmax"] * 0.8:
         spec["r_end"] = spec["tmax"] * 0.1
@@ -548,6 +549,15 @@ def oracle(c, r):
         if med_lo < x < med_hi:
             worst_c = max(worst_c, off)
             worst_r = max(worst_r, abs(s["r"] - law["r"](x)))
+    # FitRadiusEdge on a section bent through a right angle or more: the portion "beyond the last station" it fits its circle to can
+    # take in the other arm of the hook, the fitted centre then lies deep inside the blade and the stations it pushes wander
+    # (mid-blade, the far end cap, back) before they settle at the near cap - they all stay in the returned list (known finding)
+    if hook and "fit" in (c["leading"], c["trailing"]):
+        jumps = [i for i in range(len(st) - 1) if math.dist(st[i]["c"], st[i + 1]["c"]) > 2 * max(st[i]["r"], st[i + 1]["r"])]
+        if jumps:
+            yield ("fit-edge-wanders", what + ": %d of the %d consecutive station pairs are more than two radii apart (first after station %d: %r -> %r)" % (
+                len(jumps), len(st) - 1, jumps[0], st[jumps[0]]["c"], st[jumps[0] + 1]["c"]))
+            return
     # contacts on opposite sides of the camber direction (away from the end caps, where every direction is a contact)
     for i in range(1, len(st) - 1):
         if not (0.05 * chord < xs[i] < 0.95 * chord):
@@ -557,6 +567,28 @@ def oracle(c, r):
         if cp(st[i]["pos"]) * cp(st[i]["neg"]) >= 0:
             yield ("station-sides", what + ": station %d contacts %r and %r are on the same side of the camber direction" % (i, st[i]["pos"], st[i]["neg"]))
             return
+    # the medial axis of an envelope section ends at the centre of its end cap, where the radius is the end radius: no inscribed
+    # circle of a closed end is smaller (the caps are drawn with 12 chords, which takes cos(pi/24) off), so a smaller station has
+    # its centre beyond the end of the medial axis, between the cap centre and the tip
+    if not hook:
+        re_abs = spec["r_end"] * chord
+        floor_r = re_abs * math.cos(math.pi / 24) - 0.002 * re_abs - 20 * max(tol, c["core_tol"])
+        for i, s in enumerate(st):
+            if spec.get("open_end") == "te" and xs[i] > 0.5 * chord or spec.get("open_end") == "le" and xs[i] < 0.5 * chord:
+                continue
+            # the curvature-tracing locators (trace, and converge which starts from it) back-fill stations from the last medial
+            # station to the edge point on the cap itself: those are not medial stations by design
+            # (which end the analysis took for the leading one is read off the station order)
+            if c["leading" if (xs[i] < 0.5 * chord) == (xs[-1] > xs[0]) else "trailing"] in ("trace", "converge"):
+                continue
+            # the arc-fitting locators place their end station by a fit, not by the march: const-radius manufactures it from a fitted
+            # arc (listed finding when that goes wrong), fit-radius stops half-stepping towards a fitted centre once the fit is
+            # within tolerance, which can leave it a fraction of a percent of the radius past the cap centre
+            if i in (0, len(st) - 1) and (c["leading"] in ("const", "fit") or c["trailing"] in ("const", "fit")):
+                continue
+            if s["r"] < floor_r:
+                yield ("medial-end-radius", what + ": station %d (centre %r) has radius %r, below the end radius %r of the section: its centre lies beyond the end of the medial axis" % (i, s["c"], s["r"], re_abs))
+                break
     tm = spec["tmax"] * chord
     if worst_c > 0.02 * tm + 5 * tol:
         yield ("medial-centres", what + ": a station centre is %r off the generating camber curve (max thickness %r)" % (worst_c, tm))
@@ -585,7 +617,13 @@ def oracle(c, r):
         if rv.get("panic"):
             yield ("reverse-panic", what + ": the same section with reversed vertex order panicked")
         elif rv.get("err"):
-            yield ("reverse-invariant", what + ": accepted, but rejected (%s) with its vertices in the opposite order" % rv["err"])
+            # a knife edge, not a disagreement: on an unevenly cut open end the last station can touch the very end vertex of the
+            # section; that vertex is then exactly abreast of the camber end (its projection on the camber direction is zero up
+            # to rounding) and OpenIntersectGap's test `max_dist < 0` is decided by the last bit, one way or the other
+            ends = (sec[0], sec[-1])
+            touch = any(math.dist(s0[nm], e) <= 10 * tol for s0 in (st[0], st[-1]) for nm in ("pos", "neg") for e in ends)
+            if not ("Failed to find intersection with open section edge" in str(rv["err"]) and not c["closed"] and touch):
+                yield ("reverse-invariant", what + ": accepted, but rejected (%s) with its vertices in the opposite order" % rv["err"])
         else:
             # compared only for the edge locators whose answer is determined by the section (the open end, and the camber / section
             # intersection); the curvature- and arc-fitting locators pick one of many equally good points on a constant-radius cap
